@@ -43,6 +43,7 @@ type OblInstance struct {
 	Res         SolveResult
 	Note        string
 	key         string
+	Marks       []callMark
 }
 
 type execError struct{ msg string }
@@ -80,6 +81,7 @@ func (e *Engine) oblige(s *State, kind, name, desc string, pos token.Pos, goal *
 	}
 	// slice the path condition? keep whole pc (small functions).
 	inst.Assumptions = append([]*Term(nil), s.pc...)
+	inst.Marks = append([]callMark(nil), s.marks...)
 	var sb strings.Builder
 	for _, a := range inst.Assumptions {
 		fmt.Fprintf(&sb, "%d,", a.id)
@@ -573,7 +575,12 @@ func (e *Engine) execInstr(s *State, in ssa.Instruction) {
 		e.safe(s, x, "", Ne(p, Zero))
 		pl := e.placeOf(p, t)
 		e.noteWrite(s, x, pl)
-		e.store(s, pl, t, e.get(s, x.Val))
+		val := e.get(s, x.Val)
+		if strings.HasPrefix(pl.Prefix, "elem(") && !strings.Contains(pl.Prefix, ").") && e.isRepoPtr(t) {
+			// varargs / literal arrays are built by element stores too
+			e.safe(s, x, "nilelem", Ne(val[0], Zero))
+		}
+		e.store(s, pl, t, val)
 	case *ssa.BinOp:
 		f.regs[x] = e.binop(s, x)
 	case *ssa.Phi:
@@ -621,6 +628,9 @@ func (e *Engine) execInstr(s *State, in ssa.Instruction) {
 		e.safe(s, x, "", Ne(m, Zero))
 		k := e.get(s, x.Key)
 		v := e.get(s, x.Value)
+		if e.isRepoPtr(mt.Elem()) {
+			e.safe(s, x, "nilelem", Ne(v[0], Zero))
+		}
 		e.noteWrite(s, x, Place{Prefix: "map(" + e.typeKey(mt) + ")", Addr: []*Term{m}})
 		e.mapStore(s, mt, m, k, v)
 	case *ssa.Lookup:
@@ -1047,6 +1057,15 @@ func (e *Engine) typeAssert(s *State, x *ssa.TypeAssert) {
 		res = e.unbox(s, x.AssertedType, v[1])
 	}
 	if x.CommaOk {
+		if !toIface && isPointerShaped(x.AssertedType) && e.curPhaseB && ok != False {
+			sub := s.fork()
+			sub.assume(ok)
+			before := len(sub.pc)
+			e.afterAssert(sub, x.AssertedType, res)
+			for _, c := range sub.pc[before:] {
+				s.assume(Implies(ok, c))
+			}
+		}
 		if ok != True {
 			z := e.zero(x.AssertedType)
 			r := make(Value, len(res))
